@@ -27,3 +27,61 @@ package keeper
 //@   let lf0 = k.GetLend(ctx, lendID).1
 //@   ensures [C12] #c12-owner: err == nil ==> lf0 && addr == l0.Owner
 //@   fails_if [C14] #c14-breaker: lf0 && breakerOn(k, ctx, l0.AppID)
+
+// ---- interest-rate model (C18) ----
+// The borrow rate equals the two-segment spec function of the pool utilisation u (18-digit fixed point):
+//   u <  UOptimal : Base + round(round(u / UOptimal) * Slope1)
+//   u >= UOptimal : Base + Slope1 + round(round((u - UOptimal) / (1 - UOptimal)) * Slope2)
+//@ func (k Keeper) GetBorrowAPRByAssetID
+//@   property C18
+//@   let p = k.GetAssetRatesParams(ctx, assetID).0
+//@   let pf = k.GetAssetRatesParams(ctx, assetID).1
+//@   let u = k.GetUtilisationRatioByPoolIDAndAssetID(ctx, poolID, assetID).0
+//@   let uerr = k.GetUtilisationRatioByPoolIDAndAssetID(ctx, poolID, assetID).1
+//@   requires #params: p.UOptimal > 0 && p.UOptimal < ONE
+//@   ensures #c18-variable-below: err == nil && !IsStableBorrow && u < p.UOptimal ==> borrowAPY == p.Base + decMul(decQuo(u, p.UOptimal), p.Slope1)
+//@   ensures #c18-variable-above: err == nil && !IsStableBorrow && u >= p.UOptimal ==> borrowAPY == p.Base + p.Slope1 + decMul(decQuo(u - p.UOptimal, ONE - p.UOptimal), p.Slope2)
+//@   ensures #c18-stable-below: err == nil && IsStableBorrow && u < p.UOptimal ==> borrowAPY == p.StableBase + decMul(decQuo(u, p.UOptimal), p.StableSlope1)
+//@   ensures #c18-stable-above: err == nil && IsStableBorrow && u >= p.UOptimal ==> borrowAPY == p.StableBase + p.StableSlope1 + decMul(decQuo(u - p.UOptimal, ONE - p.UOptimal), p.StableSlope2)
+//@   ensures #c18-ok-iff: (err == nil) <==> (pf && uerr == nil)
+
+//@ func (k Keeper) GetUtilisationRatioByPoolIDAndAssetID
+//@   property C18
+//@   pure
+
+//@ func (k Keeper) GetLendAPRByAssetIDAndPoolID
+//@   property C18
+//@   let p = k.GetAssetRatesParams(ctx, assetID).0
+//@   let u = k.GetUtilisationRatioByPoolIDAndAssetID(ctx, poolID, assetID).0
+//@   requires #params: p.UOptimal > 0 && p.UOptimal < ONE
+//@   ensures #c18-lend-spec: err == nil ==> lendAPY == decMul(decMul(k.GetBorrowAPRByAssetID(ctx, poolID, assetID, false).0, u), ONE - p.ReserveFactor)
+
+// Properties of the spec function (pure arithmetic over the SDK's rounding functions).
+//@ lemma RateAtZeroUtilisation(uopt, s1)
+//@   property C18
+//@   requires uopt > 0
+//@   ensures #c18-base-at-zero: decMul(decQuo(0, uopt), s1) == 0
+
+//@ lemma RateMonotoneBelowKink(u1, u2, uopt, s1)
+//@   property C18
+//@   requires 0 <= u1 && u1 <= u2 && u2 < uopt && uopt > 0 && uopt < ONE && s1 >= 0 && s1 <= 100 * ONE
+//@   ensures #c18-mono-ratio: decQuo(u1, uopt) <= decQuo(u2, uopt)
+//@   ensures slow #c18-mono-below: decMul(decQuo(u1, uopt), s1) <= decMul(decQuo(u2, uopt), s1) by #c18-mono-ratio
+
+//@ lemma RateMonotoneAboveKink(u1, u2, uopt, s2)
+//@   property C18
+//@   requires uopt <= u1 && u1 <= u2 && u2 <= ONE && uopt > 0 && uopt < ONE && s2 >= 0 && s2 <= 100 * ONE
+//@   ensures #c18-mono-ratio: decQuo(u1 - uopt, ONE - uopt) <= decQuo(u2 - uopt, ONE - uopt)
+//@   ensures slow #c18-mono-above: decMul(decQuo(u1 - uopt, ONE - uopt), s2) <= decMul(decQuo(u2 - uopt, ONE - uopt), s2) by #c18-mono-ratio
+
+//@ lemma RateAcrossKink(u1, uopt, s1, s2, u2)
+//@   property C18
+//@   requires 0 <= u1 && u1 < uopt && uopt <= u2 && u2 <= ONE && uopt > 0 && uopt < ONE && s1 >= 0 && s2 >= 0 && s1 <= 100 * ONE && s2 <= 100 * ONE
+//@   ensures #c18-below-le-kink: decMul(decQuo(u1, uopt), s1) <= s1
+//@   ensures #c18-kink-le-above: 0 <= decMul(decQuo(u2 - uopt, ONE - uopt), s2)
+//@   ensures #c18-continuous-at-kink: decMul(decQuo(uopt - uopt, ONE - uopt), s2) == 0
+
+//@ lemma LendRateBelowBorrowRate(b, u, rf)
+//@   property C18
+//@   requires b >= 0 && b <= 100 * ONE && 0 <= u && u <= ONE && 0 <= rf && rf <= ONE
+//@   ensures #c18-lend-le-borrow: decMul(decMul(b, u), ONE - rf) <= b
